@@ -119,18 +119,22 @@ def _parse_outcome(rep):
     return (None if err == "none" else err), grads, sweeps
 
 
-def model_backward(driver, P: Program, tensors, inputs, agg, chunk, retain, pre, report):
+def model_backward(driver, P: Program, tensors, inputs, agg, chunk, retain, pre, report, freeze=()):
     req = ["backward", P.to_sx(), ["tensors", list(tensors)], ["inputs", list(inputs)],
            ["agg", *agg], ["chunk", "none" if chunk is None else chunk], ["retain", bool(retain)],
            _pre_sx(pre, report), ["report", list(report)]]
+    if freeze:
+        req.append(["frozen", list(freeze)])        # Engine.freeze: requires_grad_(False) after the forward pass
     return _parse_outcome(driver.ask(req))
 
 
-def model_mtl(driver, P: Program, losses, features, tasks, shared, agg, chunk, retain, pre, report):
+def model_mtl(driver, P: Program, losses, features, tasks, shared, agg, chunk, retain, pre, report, freeze=()):
     req = ["mtl", P.to_sx(), ["losses", list(losses)], ["features", list(features)],
            ["tasks", *[list(tp) for tp in tasks]], ["shared", list(shared)],
            ["agg", *agg], ["chunk", "none" if chunk is None else chunk], ["retain", bool(retain)],
            _pre_sx(pre, report), ["report", list(report)]]
+    if freeze:
+        req.append(["frozen", list(freeze)])
     return _parse_outcome(driver.ask(req))
 
 
